@@ -85,7 +85,7 @@ class World:
                        "refused_construction_inside_context", "api_sweep_call",
                        "context_object_reentered_while_active", "context_object_entered_again_after_exit",
                        "dipole_component_inside_context", "system_bath_interaction_shared_by_two_tensors",
-                       "evolution_reinitialised_inside_context", "basis_change_reports_switched_on"]
+                       "evolution_reinitialised_inside_context", "basis_change_reports_switched_on", "two_objects_on_one_array"]
     required_faults = ["F1_simfault", "F2_refused_write", "F3_dimension_mismatch"]
     components = {
         "real": ["Manager basis stack / registration / flags", "eigenbasis_of.__enter__/__exit__", "BasisManaged",
@@ -125,9 +125,9 @@ class World:
         if not any(c in CONTEXT_CLASSES for c in classes):
             classes.append("SelfAdjoint")
         opkinds = ["enter", "enter", "exit", "exit", "create", "read", "read", "write", "poke", "protect", "unprotect",
-                   "apply", "copy", "secularize", "convert", "fault", "badwrite", "opapply", "opadd", "esoat", "libprop", "evat", "badcreate", "apisweep", "tdmcomp", "evreinit"]
+                   "apply", "copy", "secularize", "convert", "fault", "badwrite", "opapply", "opadd", "esoat", "libprop", "evat", "badcreate", "apisweep", "tdmcomp", "evreinit", "alias"]
         if rng.random() < 0.5:
-            drop = rng.sample(["poke", "protect", "apply", "copy", "secularize", "convert", "fault", "badwrite", "opapply", "opadd", "esoat", "libprop", "evat", "badcreate", "apisweep", "tdmcomp", "evreinit"],
+            drop = rng.sample(["poke", "protect", "apply", "copy", "secularize", "convert", "fault", "badwrite", "opapply", "opadd", "esoat", "libprop", "evat", "badcreate", "apisweep", "tdmcomp", "evreinit", "alias"],
                               rng.randint(1, 5))
             opkinds = [k for k in opkinds if k not in drop]
         faultfree = rng.random() < 0.35
@@ -236,7 +236,7 @@ class World:
 
 
 class Obj:
-    __slots__ = ("cls", "real", "X0", "dim", "alive", "protected_at", "frozen", "nm", "name", "retired_protected")
+    __slots__ = ("cls", "real", "X0", "dim", "alive", "protected_at", "frozen", "nm", "name", "retired_protected", "shared")
 
 
 class Runner:
@@ -899,7 +899,9 @@ class Runner:
         self.ctx.cov("read", o.cls, self.depth, o.protected_at is not None)
 
     def _writable(self, o):
-        return o.protected_at is None and o.cls != "HamiltonianJR" and o.cls not in LIBRARY_BUILT
+        # objects that share their array with another object are read and used, not written (a write into one of them is
+        # a write into the other by construction, whatever the basis)
+        return o.protected_at is None and o.cls != "HamiltonianJR" and o.cls not in LIBRARY_BUILT and not getattr(o, "shared", False)
 
     def op_write(self, i, op):
         n = self.pick(op["k"], self._writable)
@@ -1259,6 +1261,38 @@ class Runner:
         self.ctx.ev(i, "evreinit", n, r, self.depth)
         self.ctx.cov("evreinit", self.depth)
 
+    def op_alias(self, i, op):
+        """A second managed object built on the array another one hands out (`ReducedDensityMatrix(data=rho.data)`, the
+        idiom of the examples): two objects, one array, each registered with the contexts on its own."""
+        n = self.pick(op["k"], lambda o: o.cls in ("RDM", "Operator", "SelfAdjoint") and o.protected_at is None)
+        if n is None:
+            return
+        o = self.pool[n]
+        if self.access_expected_refusal(o) or self.blocked(o):
+            return
+        self.touch_probe(o)
+        qr = self.qr
+        x0 = o.X0["data"]
+        herm = float(numpy.max(numpy.abs(x0 - x0.conj().T))) <= 1e-12
+        if o.cls in ("RDM", "SelfAdjoint") and not herm:
+            return
+        try:
+            arr = o.real.data
+            if o.cls == "RDM":
+                R = qr.ReducedDensityMatrix(data=arr)
+            elif o.cls == "SelfAdjoint":
+                R = qr.qm.SelfAdjointOperator(data=arr)
+            else:
+                R = qr.qm.Operator(data=arr)
+        except Exception as e:
+            raise Violation("construction-raises", "op %d: second object on the array of #%d at depth %d: %s: %s" % (i, n, self.depth, type(e).__name__, e))
+        m = self.add_obj(o.cls, R, {"data": numpy.array(o.X0["data"], dtype=complex)}, o.dim)
+        o.shared = True
+        self.pool[m].shared = True
+        self.ctx.probe("two_objects_on_one_array")
+        self.ctx.ev(i, "alias", n, m, self.depth)
+        self.ctx.cov("alias", o.cls, self.depth)
+
     def op_tdmcomp(self, i, op):
         """TransitionDipoleMoment.get_component(n) hands out one Cartesian component as a new managed operator."""
         n = self.pick(op["k"], lambda o: o.cls == "TDM" and o.protected_at is None)
@@ -1333,7 +1367,7 @@ class Runner:
         self.ctx.cov("esoat", self.depth)
 
     def op_opadd(self, i, op):
-        a = self.pick(op["s"], lambda o: o.cls in ("Operator", "SelfAdjoint", "RDM") and o.protected_at is None)
+        a = self.pick(op["s"], lambda o: o.cls in ("Operator", "SelfAdjoint", "RDM") and o.protected_at is None and not getattr(o, "shared", False))
         b = self.pick(op["k"], lambda o: o.cls in ("Operator", "SelfAdjoint", "RDM") and o.protected_at is None)
         if a is None or b is None or a == b:
             return
